@@ -93,6 +93,10 @@ CANARIES = [
     ('c10-version-lost', 'C10', 'mindsdb_sql/planner/query_planner.py', "            version = name_parts[-1]\n            name_parts = name_parts[:-1]", "            name_parts = name_parts[:-1]", 'C10.model.lookup'),
     ('c10-strip-any-first', 'C10', 'mindsdb_sql/planner/query_planner.py', "            if len(node.parts) > 1 and node.parts[0].lower() == database:", "            if len(node.parts) > 1 and node.parts[0].lower() in self.databases:", 'C10.strip'),
     ('c10-dict-name-not-lowered', 'C10', 'mindsdb_sql/planner/query_planner.py', "                    integration_name = integration['name'].lower()", "                    integration_name = integration['name']", 'C10.init'),
+    ('c17-catch-less', 'C17', 'mindsdb_sql/render/sqlalchemy_render.py', "        except (SQLAlchemyError, NotImplementedError) as e:", "        except SQLAlchemyError as e:", 'C17.fallback.NotImplementedError'),
+    ('c17-fallback-swallow-off', 'C17', 'mindsdb_sql/render/sqlalchemy_render.py', "            if not with_failback:\n                raise e\n", "            if not with_failback and isinstance(e, SQLAlchemyError):\n                raise e\n", 'C17.fallback.NotImplementedError'),
+    ('c17-new-valueerror', 'C17', 'mindsdb_sql/render/sqlalchemy_render.py', "            raise NotImplementedError('Only one table is supported')", "            raise ValueError('Only one table is supported')", 'C17.raise.stmt.prepare_drop_table'),
+    ('c17-mutate-alias', 'C17', 'mindsdb_sql/render/sqlalchemy_render.py', "        if alias is None or len(alias.parts) == 0:\n            return None", "        if alias is None or len(alias.parts) == 0:\n            return None\n        alias.parentheses = False", 'C17.frame.get_alias'),
 ]
 
 
